@@ -1491,7 +1491,8 @@ Library read_oas(const char* filename, double unit, double tolerance, ErrorCode*
     //                                     "CBLOCK"};
 
     OasisRecord record;
-    while ((error_code == NULL || *error_code == ErrorCode::NoError) &&
+    // Warnings (e.g. UnsupportedRecord for the X records that are skipped) must not end the loop
+    while ((error_code == NULL || *error_code < ErrorCode::ChecksumError) &&
            oasis_read(&record, 1, 1, in) == ErrorCode::NoError) {
         // DEBUG_PRINT("Record [%02u] %s\n", (uint8_t)record,
         //             (uint8_t)record < COUNT(oasis_record_names)
